@@ -3,6 +3,6 @@
 patch=$1; shift
 cd /repo && git apply "$patch" || { echo "APPLY FAILED"; exit 2; }
 for id in "$@"; do
-  (cd /verif && timeout 1800 ./check $id 2>&1 | grep -E "VIOLATION|KNOWN|tier=|  #" | head -8)
+  (cd /verif && timeout 1800 ./check $id 2>&1 | grep -E "VIOLATION|tier=|  #" | head -8)
 done
 cd /repo && git apply -R "$patch"; git checkout -- . ; git status --short | head -3
